@@ -10,12 +10,19 @@
    and the strict parser (with repair) returns the same tree.  With C08 (the automata are the EBNF rules) the children
    are a sentence of the rule's right-hand side; single-child collapse, the suite / parameter conventions are exactly
    `collapse` and `convert_node`.
-   Not proved (C05_partial): runs that use the missing-newline repair, and the confinement of error nodes / error
-   leaves in recovering mode - decided by the conformance predicate on implementation trees and the parse
-   correspondence. *)
+   Error confinement (second sentence of C05), proved for both modes and every token list (EngineConfine.v):
+       good H t : every rule node of t that has an error node / error leaf among its children has its rule in H,
+                  a param node never has one (error nodes may contain whatever was on the stack),
+   for every rule set H passing the boolean check confine_ok (plans keep the rule they leave and push chains that
+   respect H, arcs stay inside their rule, file_input and suite are in H, parameters / lambdef are not).  Per grammar
+   gen/LL1_<v>.v computes the least such H from the regenerated automata - file_input, suite, stmt, compound_stmt and
+   the compound statements; no expression rule, no simple statement - and discharges confine_ok by vm_compute
+   (C05_errors_confined_<v>).
+   Not proved (C05_partial): conformance of the non-error nodes of RECOVERED trees and of runs that use the
+   missing-newline repair - decided by the conformance predicate on implementation trees and the parse correspondence. *)
 From Coq Require Import List NArith Bool.
 Import ListNotations.
-Require Import Regex Tok Engine LL1 LL1Inst LL1Engine EngineSound.
+Require Import Regex Tok Engine LL1 LL1Inst LL1Engine EngineSound EngineConfine.
 
 Theorem C05_abstract_sound : forall (T St Lb Rl : Type) (mk_node : Rl -> list T -> T)
     (arcT : St -> Lb -> option St) (arcN : St -> Rl -> option St) (start : Rl -> St) (final : St -> bool) (rule_of : St -> Rl)
@@ -50,3 +57,11 @@ Proof. exact parse_nr_strict. Qed.
 Theorem C05_plans_are_arcs_or_first_chains : forall G TR, plans_sound_ok G TR = true -> forall q a q' ch, plansI TR q a = Some (q', ch) ->
   (ch = [] /\ arcT G q a = Some q') \/ (exists B, arcN G q B = Some q' /\ first_chain N label N (arcT G) (arcN G) (startR G) B a ch).
 Proof. exact plans_sound_sound. Qed.
+
+(* error markers are confined to holder rules: both modes, every token list *)
+Theorem C05_errors_confined : forall G TR H, confine_ok G TR H = true ->
+  forall recover start q0 toks t,
+  assocN start (g_start G) = Some q0 -> inH H (rule_of G q0) = true ->
+  parse G TR recover start toks = POk t -> good H t = true.
+Proof. exact errors_confined. Qed.
+Print Assumptions C05_errors_confined.
